@@ -10,8 +10,10 @@ OV_LAYER = {"fs/layer/verif_verifylayer_test.go": "fs/layer/verif_verifylayer_te
             "fs/reader/verif_verify.go": "fs/reader/verif_verify.go"}
 OV_DB = {"fs/reader/verif_verify.go": "fs/reader/verif_verify.go",
          "cmd/containerd-stargz-grpc/db/verif_c01_test.go": "cmd/containerd-stargz-grpc/db/verif_c01_test.go"}
+OV_FS = {"fs/reader/verif_verify.go": "fs/reader/verif_verify.go",
+         "fs/verif_mountdecide_test.go": "fs/verif_mountdecide_test.go"}
 PROPS = ["MountImpliesToc", "ServedAreGood", "NoBadStaysCached", "FailedReadLeavesNothing"]
-STAGES = set((os.environ.get("C01_STAGES") or "mc,negctl,replay,layer,free,sweep,db").split(","))
+STAGES = set((os.environ.get("C01_STAGES") or "mc,negctl,replay,layer,mount,free,sweep,db").split(","))
 
 GEN_READER = {"NRd": "1", "MaxVerify": "2", "Tocs": '{"D"}', "Kinds": '{"s"}', "Args": '{"D"}'}   # MaxVerify=2: a failed VerifyTOC is retried on the same reader
 GEN_READER_X = {"NWk": "1", "NRd": "1", "MaxVerify": "2"}      # altered TOC / wrong digest / broken streams, one worker
@@ -19,6 +21,10 @@ GEN_READER_X_THOROUGH = {"NWk": "1", "NRd": "2", "MaxVerify": "2", "MaxAlter": "
 GEN_READER_THOROUGH = {"NRd": "1", "MaxVerify": "2"}
 GEN_PASS = {"NWk": "1", "NRd": "2", "MaxVerify": "1", "Tocs": '{"D"}', "Args": '{"D"}', "WithPass": "TRUE", "WithTry": "FALSE", "Kinds": '{"s"}'}
 GEN_LAYER = {"NWk": "0", "NRd": "2", "MaxAlter": "1", "MaxVerify": "3", "AtomicVerify": "TRUE", "WithSkip": "TRUE", "WithTry": "FALSE"}
+ALLCFG = '{"--", "a-", "-d", "ad"}'
+GEN_MOUNT = {"NWk": "0", "NRd": "1", "MaxAlter": "1", "MaxVerify": "2", "AtomicVerify": "TRUE", "WithTry": "FALSE", "WithMount": "TRUE",
+             "FsCfgs": ALLCFG, "Kinds": '{"s"}'}
+GEN_MOUNT_THOROUGH = dict(GEN_MOUNT, NRd="2", MaxVerify="3")
 GEN_LAYER_THOROUGH = {"NWk": "0", "NRd": "3", "MaxAlter": "2", "MaxVerify": "3", "AtomicVerify": "TRUE", "WithSkip": "TRUE", "WithTry": "FALSE"}
 
 
@@ -129,7 +135,8 @@ def gen_walks(run, name, ov, maxlen, extra):
     run.cov["stages"].append(dict(stage="edge-cover", graph=name, **st))
     # the toc of the initial state each walk starts from: replay the walk ends backwards (first step's pre-state is not kept) -> use post.toc
     tocs = [w[0]["post"]["toc"] for w in walks]
-    steps = [[{k: v for k, v in s.items() if k in ("act", "w", "r", "c", "k", "d")} for s in w] for w in walks]
+    steps = [[{k: v for k, v in s.items() if k in ("act", "w", "r", "c", "k", "d", "tl", "sk")} for s in w] for w in walks]
+    gen_walks.fscfgs = [w[0]["post"]["fscfg"] for w in walks]
     return steps, tocs, st
 
 
@@ -137,7 +144,8 @@ def check(run):
     thorough = run.tier == "thorough"
     run.cov["rule"] = ("replay: walks covering every edge of the TLC state graph of Verify.tla (generation configs: two readAndCache workers x VerifyTOC x "
                        "reads x one alteration with gates; one worker with altered TOC / wrong digest / broken streams; passthrough with a directory cache; "
-                       "layer-level Verify/SkipVerify histories), stepped through a real VerifiableReader / layer over real eStargz blobs (gzip level 0 and 9, "
+                       "layer-level Verify/SkipVerify histories; filesystem.Mount with every combination of TOC-digest label {D, wrong, none} x skip-verify label x "
+                       "allow_no_verification x disable_verification on the real NewFilesystem with a handler-backed registry and a real FUSE mount), stepped through a real VerifiableReader / layer over real eStargz blobs (gzip level 0 and 9, "
                        "zstd:chunked) whose source is patched by the concretiser; free run: Cache() x2 + VerifyTOC + 4 readers + alterations under -race; "
                        "sweep: one history per bit flip / truncation / member substitution / member swap / re-serialised TOC / TOC with trailing bytes (zstd) / consistent TOC+chunk forgery served after Open (before VerifyTOC, before prefetch, before the background fetch's Clone), incl. an external-TOC blob; "
                        "non-trivial = trace contains a read through a mounted layer; distinct by hash")
@@ -145,6 +153,7 @@ def check(run):
         "chunk values abstracted to g (bytes the TOC records) / s (other bytes, stream valid) / k (stream broken); reads are whole chunks",
         "the uncompressed chunk cache is not tampered with at rest: a cache hit is served unverified by design (alterations enter through the blob source: registry, mirror, compressed-blob cache)",
         "concurrent Mount calls racing on layer.r / reader.verify of one layer object are not modelled (Verify/SkipVerify calls on one layer are sequential)",
+        "fs.Mount level: disable_verification is the operator's global switch - a Mount under it is not counted as pinned to its TOC digest label; the source is altered only before the first Mount (the blob layer keeps fetched regions); read errors through the kernel are all EIO",
         "free-run and sweep traces are decided by the monitor only (no conformance spec of the free interleaving)",
         "ground truth of the TOC in altered blobs (sweep): 'does not hash to D' only when the driver can extract it and its digest differs",
         "db metadata store: driven with the one-worker graph (thorough: + passthrough graph), a shorter free run and a coarser sweep; the two-worker gated graph and the layer histories use the memory store",
@@ -157,8 +166,10 @@ def check(run):
                    name="Verify_mc.cfg" + ("" if thorough else " NRd=1"))
         run.tlc_mc("Verify", "Verify_mc_layer.cfg", None if thorough else {"NRd": "2", "NWk": "0"}, workers=8 if thorough else 4, timeout=2400,
                    name="Verify_mc_layer.cfg" + ("" if thorough else " NRd=2 NWk=0"))
+        run.tlc_mc("Verify", "Verify_mc_mount.cfg", None if thorough else {"NRd": "2"}, workers=4, timeout=2400, name="Verify_mc_mount.cfg")
     if "negctl" in STAGES:
         small = {"NRd": "1"}
+        run.tlc_negctl("Verify", "Verify_mc_mount.cfg", {"TocLabelFirst": "FALSE", "NRd": "2"}, ["MountImpliesToc", "ServedAreGood", "NoBadStaysCached"], drop=("TypeOK",))
         run.tlc_negctl("Verify", "Verify_mc.cfg", dict(small, DecideUnderLock="FALSE"), ["NoBadStaysCached", "ServedAreGood"], drop=("TypeOK",))
         run.tlc_negctl("Verify", "Verify_mc.cfg", dict(small, AbortWhenProhibited="FALSE"), ["NoBadStaysCached", "ServedAreGood"], drop=("TypeOK",))
         run.tlc_negctl("Verify", "Verify_mc.cfg", dict(small, VerifyBeforeCache="FALSE"), ["NoBadStaysCached", "FailedReadLeavesNothing", "ServedAreGood"], drop=("TypeOK",))
@@ -184,6 +195,12 @@ def check(run):
         steps, tocs, st = gen_walks(run, "layer", ov, 30, 100 if thorough else 10)
         exhaustive = exhaustive and st["covered"] == st["edges"]
         ljob = {"name": "layer", "ov": ov, "out": os.path.join(run.scratch, "replay_layer.ndjson"), "tocs": tocs, "walks": steps}
+    mjob = None
+    if "mount" in STAGES:
+        ov = GEN_MOUNT_THOROUGH if thorough else GEN_MOUNT
+        steps, tocs, st = gen_walks(run, "mount", ov, 20, 60 if thorough else 10)
+        exhaustive = exhaustive and st["covered"] == st["edges"]
+        mjob = {"name": "mount", "ov": ov, "out": os.path.join(run.scratch, "replay_mount.ndjson"), "tocs": tocs, "fscfgs": gen_walks.fscfgs, "walks": steps}
     log("[time] generation done at %.0fs" % (time.time() - t0))
     # ------------------------------------------------------------------ the drivers
     free = os.path.join(run.scratch, "free.ndjson")
@@ -226,6 +243,12 @@ def check(run):
         rc, out = run.go_driver("", "./fs/layer/", OV_LAYER, "^TestVerifC01Layer$", env={"VERIF_IN": inp}, timeout=2400)
         if rc != 0:
             report_race(run, out, "fs/layer", "layer-histories")
+    if mjob:
+        inp = os.path.join(run.scratch, "walks_mount.json")
+        write_json(inp, [mjob])
+        rc, out = run.go_driver("", "./fs/", OV_FS, "^TestVerifC01Mount$", env={"VERIF_IN": inp}, timeout=2400)
+        if rc != 0:
+            report_race(run, out, "fs", "mount-decision")
     log("[time] drivers done at %.0fs" % (time.time() - t0))
     # ------------------------------------------------------------------ TLC decides
     has_verr = lambda t: any(e.get("res") == "verr" for e in t)
@@ -236,6 +259,9 @@ def check(run):
     if ljob:
         groups.append({"mode": "replay-layer", "paths": [ljob["out"]], "ov": ljob["ov"],
                        "sample": lambda t: sum(1 for e in t if e.get("ev") in ("LayerVerify", "LayerSkip")) >= 2})
+    if mjob:
+        groups.append({"mode": "replay-mount", "paths": [mjob["out"]], "ov": mjob["ov"],
+                       "sample": lambda t: sum(1 for e in t if e.get("ev") == "Mount") >= 2})
     for st, f in (("free", free), ("sweep", sweep)):
         if st in STAGES:
             groups.append({"mode": {"free": "free-run", "sweep": "sweep"}[st] + ("+db" if "db" in STAGES else ""),
@@ -243,7 +269,7 @@ def check(run):
                            "sample": has_verr if st == "free" else None})
     validate_all(run, groups)
     log("[time] validation done at %.0fs" % (time.time() - t0))
-    run.cov["exhaustive"] = exhaustive and {"replay", "layer"} <= STAGES
+    run.cov["exhaustive"] = exhaustive and {"replay", "layer", "mount"} <= STAGES
 
 
 if __name__ == "__main__":
